@@ -61,6 +61,7 @@ func cgen(args []string) {
 	tier := fs.String("tier", "quick", "")
 	seed := fs.Int64("seed", 1, "")
 	corpus := fs.String("corpus", "", "file of program s-expressions to include first")
+	only := fs.Bool("only-corpus", false, "emit the corpus programs only")
 	fs.Parse(args)
 
 	var bodies [][]*mg.Stmt
@@ -109,6 +110,9 @@ func cgen(args []string) {
 		}
 	}
 	nCorpus := n
+	if *only {
+		bodies = nil
+	}
 	for _, b := range bodies {
 		emit((&mg.Prog{Body: b}).Sexp().String())
 	}
@@ -215,6 +219,7 @@ func crun(args []string) {
 		id    string
 		names []string
 		progs []*mg.Prog
+		style mg.Style
 	}
 	var okBatches []okBatch
 	var compileBatch func(id string, ps []progLine, style mg.Style)
@@ -255,11 +260,24 @@ func crun(args []string) {
 			return
 		}
 		tmpSrc, _ := os.ReadFile(filepath.Join(keep, "gen.go"))
+		{
+			// the intermediate output keeps the co import even when nothing uses it any more (the
+			// optimiser's import clean-up removes it); add a use so that the package builds
+			use := "co.Iter[int]"
+			switch style.CoImport {
+			case ".":
+				use = "Iter[int]"
+			case "", "co":
+			default:
+				use = style.CoImport + ".Iter[int]"
+			}
+			os.WriteFile(filepath.Join(keep, "gen.go"), append(append([]byte{}, tmpSrc...), []byte("\nvar _ "+use+"\n")...), 0o644)
+		}
 		finSrc, _ := os.ReadFile(filepath.Join(dst, "gen.go"))
 		tmpF, err1 := mg.ParseFile(string(tmpSrc), "G")
 		finF, err2 := mg.ParseFile(string(finSrc), "G")
 		mu.Lock()
-		ob := okBatch{id: id, progs: mp}
+		ob := okBatch{id: id, progs: mp, style: style}
 		for _, p := range ps {
 			ob.names = append(ob.names, p.Name)
 		}
